@@ -408,6 +408,11 @@ def _reach_publish(site, removed_nodes, removed_edges, start_edges=None):
     return hits
 
 
+def castling_flag(right):
+    return {"WhiteKingSide": "white_king_side_castle", "WhiteQueenSide": "white_queen_side_castle",
+            "BlackKingSide": "black_king_side_castle", "BlackQueenSide": "black_queen_side_castle"}[right]
+
+
 def r2_4(ctx):
     """For each rook home corner C with right V: no path from a successor's creation to its
     publication is consistent with `to == C` (resp. `from == C`, piece not a king) unless
@@ -445,6 +450,9 @@ def r2_4(ctx):
             r, c = chess.sq(corner)
             for role, pt in (("to", to), ("from", frm)):
                 hyp = {("field", pt, "0"): ("eq", r), ("field", pt, "1"): ("eq", c)}
+                # the right is still held by the parent (otherwise there is nothing to remove)
+                if site.src_local is not None:
+                    hyp[("field", ("deref", ("arg", site.src_local)), castling_flag(right))] = ("eq", True)
                 if role == "from":
                     hyp[kind_e] = ("ne", ("King", "Pawn"))   # kings: own instance below; pawns never stand on a corner
                 ref = refuted_edges(b, ex, hyp, variants)
@@ -457,6 +465,8 @@ def r2_4(ctx):
         for colour in ("White", "Black"):
             for right in [k for k, v in chess.RIGHT_COLOUR.items() if v == colour]:
                 hyp = {kind_e: ("eq", "King"), col_e: ("eq", colour)}
+                if site.src_local is not None:
+                    hyp[("field", ("deref", ("arg", site.src_local)), castling_flag(right))] = ("eq", True)
                 ref = refuted_edges(b, ex, hyp, variants)
                 hits = _reach_publish(site, takes.get(right, set()), ref)
                 n += 1
